@@ -757,3 +757,148 @@ Proof.
   exists (w_front w_w_re_a_com [47]%N [48]%N), (w_front w_re_a_com [47]%N [49]%N), w_xyz_a_com, [47]%N, [71]%N.
   vm_compute. discriminate.
 Qed.
+
+(** ** pre / post lists: order and identity *)
+Lemma remove_first_spec {A} (f : A -> bool) (l : list A) :
+  match remove_first f l with
+  | (l', true) => exists l1 e l2, l = l1 ++ e :: l2 /\ f e = true /\ (forall x, In x l1 -> f x = false) /\ l' = l1 ++ l2
+  | (l', false) => l' = l /\ forall x, In x l -> f x = false
+  end.
+Proof.
+  induction l as [|x r IH]; cbn [remove_first]; [split; [reflexivity|intros x []]|].
+  destruct (f x) eqn:E.
+  - exists [], x, r. repeat split; auto. intros y [].
+  - destruct (remove_first f r) as [r' b]. destruct b.
+    + destruct IH as (l1 & e & l2 & -> & Fe & F1 & ->). exists (x :: l1), e, l2. repeat split; auto.
+      intros y [<-|Hy]; auto.
+    + destruct IH as [-> F]. split; [reflexivity|]. intros y [<-|Hy]; auto.
+Qed.
+
+Definition ident (e : drule * prule * mrule * route) : drule * prule * mrule :=
+  let '(d, p, m, _) := e in (d, p, m).
+
+Lemma same_flat_ident d p m e : same_flat d p m e = true <-> ident e = (d, p, m).
+Proof.
+  destruct e as [[[d' p'] m'] r]. cbn [same_flat ident].
+  rewrite !andb_true_iff, drule_eqb_eq, prule_eqb_eq, mrule_eqb_eq.
+  split; [intros [[-> ->] ->]; reflexivity|intros H; inversion H; auto].
+Qed.
+
+Lemma existsb_same_flat d p m l : existsb (same_flat d p m) l = true <-> In (d, p, m) (map ident l).
+Proof.
+  rewrite existsb_exists, in_map_iff. split.
+  - intros (e & I & S). exists e. split; [apply same_flat_ident; exact S|exact I].
+  - intros (e & S & I). exists e. split; [exact I|apply same_flat_ident; exact S].
+Qed.
+
+(** [add_pre_rule] / [add_post_rule]: a new identity goes to the end, a known one is refused *)
+Lemma add_flat_spec l d p m r :
+  (In (d, p, m) (map ident l) /\ add_flat l d p m r = (l, false)) \/
+  (~ In (d, p, m) (map ident l) /\ add_flat l d p m r = (l ++ [(d, p, m, r)], true)).
+Proof.
+  unfold add_flat. destruct (existsb (same_flat d p m) l) eqn:E.
+  - left. split; [apply existsb_same_flat; exact E|reflexivity].
+  - right. split; [|reflexivity]. intros H. apply existsb_same_flat in H. congruence.
+Qed.
+
+(** [remove_pre_rule] / [remove_post_rule]: the entry with that identity is
+    taken out, every other entry keeps its place relative to the others *)
+Lemma remove_flat_spec l d p m :
+  NoDup (map ident l) ->
+  match remove_flat l d p m with
+  | (l', true) => exists l1 r l2, l = l1 ++ (d, p, m, r) :: l2 /\ l' = l1 ++ l2 /\ ~ In (d, p, m) (map ident l')
+  | (l', false) => l' = l /\ ~ In (d, p, m) (map ident l)
+  end.
+Proof.
+  intros ND. unfold remove_flat. pose proof (remove_first_spec (same_flat d p m) l) as S.
+  destruct (remove_first (same_flat d p m) l) as [l' b]. destruct b.
+  - destruct S as (l1 & e & l2 & -> & Fe & F1 & ->). apply same_flat_ident in Fe.
+    destruct e as [[[d' p'] m'] r]. cbn [ident] in Fe. inversion Fe; subst.
+    exists l1, r, l2. repeat split; auto.
+    rewrite map_app in *. cbn [map ident] in ND. apply NoDup_remove_2 in ND. exact ND.
+  - destruct S as [-> F]. split; [reflexivity|]. intros H. apply in_map_iff in H.
+    destruct H as (e & Ie & He). apply same_flat_ident in Ie. rewrite (F e He) in Ie. discriminate.
+Qed.
+
+Lemma add_flat_nodup l d p m r : NoDup (map ident l) -> NoDup (map ident (fst (add_flat l d p m r))).
+Proof.
+  intros ND. destruct (add_flat_spec l d p m r) as [[_ ->]|[NI ->]]; cbn [fst]; [exact ND|].
+  rewrite map_app. cbn [map ident].
+  assert (G : forall (xs : list (drule * prule * mrule)) x, NoDup xs -> ~ In x xs -> NoDup (xs ++ [x])).
+  { induction xs as [|y xs IH]; intros x Nx NIx; cbn [app]; [constructor; [intros []|constructor]|].
+    inversion Nx as [|? ? Hy Hxs]; subst. constructor.
+    - intros H. apply in_app_or in H. destruct H as [H|[H|[]]]; [contradiction|subst; apply NIx; left; reflexivity].
+    - apply IH; [exact Hxs|]. intros H; apply NIx; right; exact H. }
+  apply G; assumption.
+Qed.
+
+Lemma remove_flat_nodup l d p m : NoDup (map ident l) -> NoDup (map ident (fst (remove_flat l d p m))).
+Proof.
+  intros ND. pose proof (remove_flat_spec l d p m ND) as S.
+  destruct (remove_flat l d p m) as [l' b]. cbn [fst]. destruct b.
+  - destruct S as (l1 & r & l2 & -> & -> & _). rewrite map_app in *. cbn [map] in ND.
+    apply NoDup_remove_1 in ND. exact ND.
+  - destruct S as [-> _]. exact ND.
+Qed.
+
+Section FlatHistory.
+  Variable re_ok : bytes -> bool.
+
+  Definition flat_ok (S : astate) : Prop := NoDup (map ident (s_pre S)) /\ NoDup (map ident (s_post S)).
+
+  Lemma flat_ok_step S o : flat_ok S -> flat_ok (step_a re_ok S o).
+  Proof.
+    intros [N1 N2]. destruct o as [fr|fr]; cbn [step_a].
+    - unfold a_add. destruct (parse_path re_ok (f_pkind fr) (f_pval fr)) as [p|]; [|split; assumption].
+      destruct (parse_domain re_ok (f_host fr)) as [d|]; [|split; assumption].
+      destruct (f_pos fr).
+      + pose proof (add_flat_nodup (s_pre S) d p (f_method fr) (mk_route fr) N1) as N.
+        destruct (add_flat (s_pre S) d p (f_method fr) (mk_route fr)) as [l b]. split; assumption.
+      + pose proof (add_flat_nodup (s_post S) d p (f_method fr) (mk_route fr) N2) as N.
+        destruct (add_flat (s_post S) d p (f_method fr) (mk_route fr)) as [l b]. split; assumption.
+      + destruct (a_add_tree (s_tree S) (f_host fr) p (f_method fr) (mk_route fr)) as [T b]. split; assumption.
+    - unfold a_del. destruct (parse_path re_ok (f_pkind fr) (f_pval fr)) as [p|]; [|split; assumption].
+      destruct (f_pos fr).
+      + destruct (parse_domain re_ok (f_host fr)) as [d|]; [|split; assumption].
+        pose proof (remove_flat_nodup (s_pre S) d p (f_method fr) N1) as N.
+        destruct (remove_flat (s_pre S) d p (f_method fr)) as [l b]. split; assumption.
+      + destruct (parse_domain re_ok (f_host fr)) as [d|]; [|split; assumption].
+        pose proof (remove_flat_nodup (s_post S) d p (f_method fr) N2) as N.
+        destruct (remove_flat (s_post S) d p (f_method fr)) as [l b]. split; assumption.
+      + split; assumption.
+  Qed.
+
+  Lemma flat_ok_config hist : flat_ok (config re_ok hist).
+  Proof.
+    unfold config. assert (G : forall h S, flat_ok S -> flat_ok (fold_left (step_a re_ok) h S)).
+    { induction h as [|o h IH]; intros S F; cbn [fold_left]; [exact F|]. apply IH, flat_ok_step, F. }
+    apply G. split; constructor.
+  Qed.
+
+  (** a removed pre (post) frontend is no longer in the pre (post) list, and the
+      others are still there in the same relative order *)
+  Lemma removed_from_flat hist fr p d :
+    f_pos fr <> Tree -> parse_path re_ok (f_pkind fr) (f_pval fr) = Some p ->
+    parse_domain re_ok (f_host fr) = DOk d ->
+    let S := config re_ok hist in
+    let S' := config re_ok (hist ++ [ODel fr]) in
+    let l := match f_pos fr with Pre => s_pre S | _ => s_post S end in
+    let l' := match f_pos fr with Pre => s_pre S' | _ => s_post S' end in
+    ~ In (d, p, f_method fr) (map ident l') /\
+    ((l' = l /\ ~ In (d, p, f_method fr) (map ident l)) \/
+     exists l1 r l2, l = l1 ++ (d, p, f_method fr, r) :: l2 /\ l' = l1 ++ l2).
+  Proof.
+    intros NT PP PD. cbv zeta. rewrite config_snoc. cbn [step_a]. unfold a_del. rewrite PP, PD.
+    destruct (flat_ok_config hist) as [N1 N2].
+    destruct (f_pos fr); [| |congruence].
+    - pose proof (remove_flat_spec (s_pre (config re_ok hist)) d p (f_method fr) N1) as S.
+      destruct (remove_flat (s_pre (config re_ok hist)) d p (f_method fr)) as [l' b]. cbn [fst s_pre]. destruct b.
+      + destruct S as (l1 & r & l2 & E & -> & NI). split; [exact NI|]. right. exists l1, r, l2. auto.
+      + destruct S as [-> NI]. split; [exact NI|]. left; auto.
+    - pose proof (remove_flat_spec (s_post (config re_ok hist)) d p (f_method fr) N2) as S.
+      destruct (remove_flat (s_post (config re_ok hist)) d p (f_method fr)) as [l' b]. cbn [fst s_post]. destruct b.
+      + destruct S as (l1 & r & l2 & E & -> & NI). split; [exact NI|]. right. exists l1, r, l2. auto.
+      + destruct S as [-> NI]. split; [exact NI|]. left; auto.
+  Qed.
+End FlatHistory.
+
